@@ -11,7 +11,8 @@ from ..common import cps, uncps, rec
 from ..simpleprop import SimpleProperty
 
 warnings.filterwarnings("ignore")
-SUPPORTED_EXTRA = ["text/html", "*/*", "application/x-binary-rdf-results-table", "text/tab-separated-values", "text/plain"]
+SUPPORTED_EXTRA = ["text/html", "*/*", "application/x-binary-rdf-results-table", "text/tab-separated-values", "text/plain",
+                   "application/*", "text/*"]
 SAFE = ["a", "b", "1", "_", "-", ".", "G", "O", "é", "日", "Ü", "%20", "𝔘"]
 
 
@@ -39,7 +40,7 @@ def make_header(rng, supported, synonyms):
     parts, text = [], []
     for t in types_:
         if rng.random() < 0.6:
-            q = rng.choice([1000, 900, 800, 500, 501, 100, 1, rng.randint(1, 1000)])
+            q = rng.choice([1000, 900, 800, 500, 501, 100, 1, 0, 0, rng.randint(0, 1000)])
             qs = ("%.3f" % (q / 1000)).rstrip("0").rstrip(".") if rng.random() < 0.7 else "%.3f" % (q / 1000)
             sep = rng.choice([";q=", "; q=", " ;q=", " ; q="])
             text.append(t + sep + qs)
@@ -158,6 +159,18 @@ class C18(SimpleProperty):
         hs += [("", None), (None, None)]
         hs += [tuple(x) for x in case.get("extra_headers", [])]
         out["headers"] = [{"text": t, "parts": p, "got": U.handle_header(t)} for t, p in hs]
+        # the same negotiation through the transports: the Content-Type of the response to a query sent with that header
+        q0 = sparql(case["uris"][0], "subject", "inside")
+        via = []
+        for t, _p in hs[:8]:
+            if t is None:
+                continue
+            row = {"text": t, "flask_get": fl.get("/sparql", query_string={"query": q0}, headers={"accept": t}).headers.get("content-type"),
+                   "flask_post": fl.post("/sparql", data={"query": q0}, headers={"accept": t}).headers.get("content-type")}
+            if fa is not None:
+                row["fastapi_get"] = fa.get("/sparql", params={"query": q0}, headers={"accept": t}).headers.get("content-type")
+            via.append(row)
+        out["via_http"] = via
         out["tables"] = {"supported": supported, "synonyms": synonyms, "default": U.DEFAULT_CONTENT_TYPE}
         from rdflib import term
 
@@ -196,6 +209,11 @@ class C18(SimpleProperty):
                 w = [] if key.startswith("otherpred") else want
                 if got != w:
                     fails.append(f"{key} for <{u}> returns {got}, expected exactly {w}")
+        for row in impl.get("via_http", []):
+            want = next(h["got"] for h in impl["headers"] if h["text"] == row["text"])
+            for k, v in row.items():
+                if k != "text" and (v or "").split(";")[0].strip() != want:
+                    fails.append(f"{k} with Accept: {row['text']!r} answers Content-Type {v!r}, handle_header says {want!r}")
         t = impl["tables"]
         canon = lambda x: t["synonyms"].get(x, x)
         for h in impl["headers"]:
